@@ -116,7 +116,7 @@ class Runner(object):
                 # a history ends at its first event; scripted cells go on after an event that belongs to another
                 # property (facts are edge triggered), so that a follow-up step can still show this property's own
                 own = any(f == self.family for f, _, _ in step_events)
-                if own or not label.startswith("deck:") or any(f == "R" for f, _, _ in step_events):
+                if own or not label.startswith("deck:") or (op[0] == "finalize" and any(f == "R" for f, _, _ in step_events)):
                     break
         for fam, key, what in events:
             if fam == self.family and report:
@@ -325,6 +325,15 @@ def deck():
     cell("setitem/properties/clash-with-sibling", ["prop", "z", enc([1]), "int", A, {}],
          ["prop", "z", enc([2]), "int", None, {}], ["setitem", A, "properties", 0, 15])
     cell("setitem/sections/attached-elsewhere", ["setitem", D, "sections", 1, C])
+    # a refused operation followed by a rename to a sibling's name (the refusal must not have detached anything)
+    cell("refused-then-renamed/remove-not-a-child", ["remove", B, C], ["rename", C, enc("b")])
+    cell("refused-then-renamed/prop-remove-not-a-child", ["prop", "k", enc([1]), "int", A, {}], ["remove", B, P], ["rename", P, enc("k")])
+    cell("refused-then-renamed/append-clash", ["append", D, B2], ["rename", B2, enc("c")])
+    cell("refused-then-renamed/insert-clash", ["insert", A, 0, C2], ["rename", C, enc("b")])
+    # a Property created inside a Section with a dependency on a typed sibling and a value that is no text form of that type
+    for dv in ("high", "2", 2, "", None):
+        cell("ctor/prop/dependency-on-typed-sibling", ["prop", "dep", enc([1]), "int", A, {"dependency": "p", "dependency_value": dv}])
+        cell("create_property/then-dependency", ["create_property", A, "dep2", enc([1]), "int"])
     # n-tuple values with an empty element (legal) inside what gets cloned by clone / merge / link
     for tv in ("(1;)", "(;2)", "(;)"):
         mk = ["prop", "tp", enc([tv, "(3;4)"]), "2-tuple", A, {}]
